@@ -38,8 +38,9 @@ var props = map[string]propCfg{
 		Scenarios: []scenCfg{
 			{Name: "scan", Quick: 3000, Thorough: 200000, Batch: 100},
 			{Name: "loop", Quick: 1500, Thorough: 100000, Batch: 100},
+			{Name: "filter", Quick: 800, Thorough: 60000, Batch: 100},
 		},
-		Rule: "loop: as C13, order of every published merger incl. sort toggles and merger-cache hits. scan: one evaluation = one (list, tail, partition count, sort/tac/tiebreak, queries, worker schedule, access pattern) tuple run through the real Matcher.scan and Merger and compared with one sequential global sort using an independent comparator; " +
+		Rule: "filter: whole `fzf --filter` processes: the order printed is the order of a sequential filter under the tiebreak list and scheme the command line asks for (incl. --scheme given after --tiebreak). loop: as C13, order of every published merger incl. sort toggles and merger-cache hits. scan: one evaluation = one (list, tail, partition count, sort/tac/tiebreak, queries, worker schedule, access pattern) tuple run through the real Matcher.scan and Merger and compared with one sequential global sort using an independent comparator; " +
 			"distinct = distinct event-log hash; non-trivial = at least one preemption between partition workers",
 		RealStub: map[string][]string{
 			"real": {"ChunkList.Snapshot", "Matcher.scan/sliceChunks", "Pattern.Match", "ChunkCache", "Merger", "buildResult (trusted for the per-item rank key)"},
